@@ -188,8 +188,122 @@ def _check_pred(ctx: Ctx, name: str, over: List[str], domains, spec, what: str, 
                 strict = b.x["taken"]
         results.setdefault((_nonempty(p, e, c), strict), set()).add(_outcome(p))
     if not found:
-        raise AnalysisError(f"anchor lost: selecting comprehension of {name}")
+        return fn, _check_pred_loop(ctx, fn, name, over, domains, spec, what, feasible)
     return fn, results
+
+
+def _segments(p: Path, over: List[str]):
+    """Per-iteration segments of the explicit loop `for x in <over>` on this path: (iter event, element text, events)."""
+    evs = p.events
+    marks = [e for e in evs if e.kind in ("iter", "exhaust") and e.term is not None and xshow(e.term, evs) in over and e.x.get("loop", "for") == "for"]
+    out = []
+    for a, b in zip(marks, marks[1:]):
+        if a.kind == "iter":
+            out.append((a, show(a.x["elem"]), evs[a.idx + 1: b.idx]))
+    return out
+
+
+def _segment_row(p: Path, elem: str, seg, atom_of):
+    """Facts established about one element while it is being considered: atom -> bool.  Raises Unrecognised."""
+    evs = p.events
+    facts: Dict[str, bool] = {}
+    inner_true = False
+    inner_done = False
+    inner_seen = False
+    for e in seg:
+        if e.kind in ("iter", "exhaust") and e.term is not None and xshow(e.term, evs) == f"visit_connected_states({elem})":
+            inner_seen = True
+            if e.kind == "exhaust":
+                inner_done = True
+            continue
+        if e.kind != "branch":
+            continue
+        t = expand1(e.term, evs)
+        pol = e.x["taken"]
+        while isinstance(t, ast.UnaryOp) and isinstance(t.op, ast.Not):
+            t, pol = t.operand, not pol
+        txt = show(t)
+        if inner_seen and isinstance(t, ast.Attribute) and t.attr == "final" and isinstance(t.value, ast.Subscript) and show(t.value.slice).startswith("$k") \
+                and xshow(t.value.value, evs) == f"visit_connected_states({elem})":
+            inner_true = inner_true or pol
+            continue
+        a = atom_of(t)
+        if a is None:
+            raise boolfn.Unrecognised(txt)
+        if a in facts and facts[a] != pol:
+            return None  # contradictory (infeasible) path
+        facts[a] = pol
+    if inner_seen:
+        if inner_true:
+            facts["REACHES_FINAL"] = True
+        elif inner_done:
+            facts["REACHES_FINAL"] = False
+    return facts
+
+
+def _check_pred_loop(ctx: Ctx, fn: FuncInfo, name: str, over: List[str], domains, spec, what: str, feasible=None):
+    """The selection written as an explicit loop (`for s in states: if ...: out.append(s)`): the truth table is read
+    off the paths - one row per (facts established about the element, was it appended)."""
+    import itertools
+    rep = ctx.rep
+    rows = []
+    results = {}
+    where = None
+    for p in ctx.paths(fn, inline=_inline_meta, exc_edges="none", unroll=2):
+        evs = p.events
+        segs = _segments(p, over)
+        outs = {show(e.term.func.value) for e in p.calls() if isinstance(e.term.func, ast.Attribute) and e.term.func.attr in ("append", "add")
+                and show(e.term.func.value).startswith(("$l", "$c"))}
+        if not any(e.kind in ("iter", "exhaust") and e.term is not None and xshow(e.term, evs) in over for e in evs):
+            continue
+        n_sel = 0
+        feasible_path = True
+        for it, elem, seg in segs:
+            where = where or it
+            try:
+                facts = _segment_row(p, elem, seg, _atoms_for(elem))
+            except boolfn.Unrecognised as u:
+                rep.unrecognised("C09.pred", it.loc(), f"{name}: the selecting loop tests `{u}`")
+                return results
+            if facts is None:
+                feasible_path = False
+                break
+            sel = [e for e in seg if e.kind == "call" and isinstance(e.term.func, ast.Attribute) and e.term.func.attr in ("append", "add")
+                   and e.term.args and show(e.term.args[0]) == elem]
+            n_sel += 1 if sel else 0
+            rows.append((facts, bool(sel)))
+        if not feasible_path:
+            continue
+        # outcome keyed by emptiness of the selection; paths whose emptiness test contradicts what was appended are infeasible
+        ph = None
+        for b in p.of("branch"):
+            t = show(b.term)
+            if t in outs or (t.startswith("$l") and not outs):
+                ph = b.x["taken"]
+        if ph is not None and ph != (n_sel > 0):
+            continue
+        strict = None
+        for b in p.of("branch"):
+            if xshow(b.term, evs) == "cls._strict_states":
+                strict = b.x["taken"]
+        results.setdefault((ph, strict), set()).add(_outcome(p))
+    if not rows:
+        raise AnalysisError(f"anchor lost: selecting comprehension or loop of {name}")
+    names = sorted(domains)
+    got = {}
+    for combo in itertools.product(*[domains[n] for n in names]):
+        val = dict(zip(names, combo))
+        if feasible is not None and not feasible(**val):
+            continue
+        sels = {sel for facts, sel in rows if all(val.get(k) == v for k, v in facts.items())}
+        if len(sels) != 1:
+            rep.unrecognised("C09.pred", where.loc(), f"{name}: the selecting loop does not decide the row {val} ({sorted(sels)})")
+            return results
+        got[combo] = sels.pop()
+    want = {k: v for k, v in boolfn.spec_table(spec, domains).items() if k in got}
+    rep.check(got == want, "C09.pred", where.loc(), f"{name}: {what}", fn.key, "selecting loop: " + "; ".join(f"{dict(zip(names, k))}->{v}" for k, v in sorted(got.items())),
+              truth_table={str(k): v for k, v in got.items()}, atoms=names)
+    return results
 
 
 def _nonempty(p: Path, e, c) -> Optional[bool]:
@@ -261,11 +375,10 @@ def rule_pred(ctx: Ctx):
     _expect_outcomes(ctx, fn, res, strict_matters=True)
     early = False
     for p in ctx.paths(fn, inline=_inline_meta, exc_edges="none"):
-        e, c = _selecting_comp(ctx, p, ["cls.states"])
-        if c is None and p.kind in ("return", "fall"):
-            g = [b for b in p.of("branch") if "any(" in xshow(b.term, p.events) and ".final" in xshow(b.term, p.events)]
-            if g and g[0].x["taken"] is False:
-                early = True
+        if p.kind in ("return", "fall") and not any(e.kind in ("iter", "exhaust") for e in p.events) and _selecting_comp(ctx, p, ["cls.states"])[1] is None:
+            for b in p.of("branch"):
+                if _no_final_fact(expand1(b.term, p.events), b.x["taken"]):
+                    early = True
     rep.check(early, "C09.pred", fn.loc(), "machines without final states skip the path-to-final check", fn.key, "no early return when there is no final state")
     # 5. disconnected states
     fn = ctx.fn(f"{META}._check_disconnected_state")
@@ -284,6 +397,24 @@ def rule_pred(ctx: Ctx):
         rep.unrecognised("C09.pred", fn.loc(), "disconnected-state computation is not `set(all) - set(visited)`")
     rep.check(outcomes.get(True) == {"raise:InvalidDefinition"} and outcomes.get(False) == {"pass"}, "C09.pred", fn.loc(),
               "unreachable states always raise InvalidDefinition (independently of strict_states)", fn.key, f"outcomes: { {k: sorted(v) for k, v in outcomes.items()} }")
+
+
+def _no_final_fact(t: ast.AST, taken: bool) -> bool:
+    """The branch fact says 'the class has no final state'."""
+    while isinstance(t, ast.UnaryOp) and isinstance(t.op, ast.Not):
+        t, taken = t.operand, not taken
+    if show(t) == "cls.final_states":
+        return taken is False
+    if isinstance(t, ast.Call) and show(t.func) in ("any", "all") and len(t.args) == 1 and isinstance(t.args[0], (ast.GeneratorExp, ast.ListComp)):
+        g = t.args[0]
+        if len(g.generators) != 1 or g.generators[0].ifs or show(g.generators[0].iter) != "cls.states" or not isinstance(g.generators[0].target, ast.Name):
+            return False
+        v = g.generators[0].target.id
+        if show(t.func) == "any" and show(g.elt) == f"{v}.final":
+            return taken is False
+        if show(t.func) == "all" and show(g.elt) == f"not {v}.final":
+            return taken is True
+    return False
 
 
 def _expect_outcomes(ctx: Ctx, fn: FuncInfo, res: Dict, strict_matters: bool):
@@ -365,6 +496,23 @@ def rule_visit(ctx: Ctx):
                 itx.attr == "transitions" and isinstance(itx.value, ast.Name) and itx.value.id.startswith("$c")
             rep.check(ok, "C09.visit", e.loc(), "what enters the worklist is the target of every outgoing transition of the state just visited (forward, unfiltered)",
                       fn.key, norm_stmt(e.node), feeds=txt)
+        elif (isinstance(arg, ast.Attribute) and isinstance(arg.value, ast.Subscript) and isinstance(arg.value.value, ast.Attribute)
+              and arg.value.value.attr == "transitions" and show(arg.value.slice).startswith("$k")):
+            # explicit loop form: for t in <cur>.transitions: work.append(t.<attr>)
+            src = expand1(arg.value.value.value, p.events)
+            cur_ok = isinstance(src, ast.Call) and isinstance(src.func, ast.Attribute) and src.func.attr in ("popleft", "pop")
+            if not cur_ok:
+                s2 = arg.value.value.value
+                cur_ok = isinstance(s2, ast.Name) and s2.id.startswith("$c")
+            it_ev = [x for x in p.events[: e.idx] if x.kind == "iter" and x.x.get("loop") == "for"]
+            between = p.events[it_ev[-1].idx: e.idx] if it_ev else []
+            unfiltered = bool(it_ev) and not any(b.kind == "branch" for b in between)
+            if arg.attr == "source":
+                rep.violation("C09.visit", e.loc(), "the visit also follows transitions backwards (`.source`): reachability becomes undirected", fn.key, norm_stmt(e.node))
+                continue
+            rep.check(cur_ok and unfiltered and arg.attr == "target" and e.term.func.attr in ("append", "appendleft"), "C09.visit", e.loc(),
+                      "what enters the worklist is the target of every outgoing transition of the state just visited (forward, unfiltered)",
+                      fn.key, norm_stmt(e.node), feeds=show(arg))
         elif arg is not None and (show(arg) == start or (isinstance(arg, (ast.List, ast.Tuple)) and [show(x) for x in arg.elts] == [start])):
             rep.ok("C09.visit", e.loc(), "the visit starts from the given state")
         else:
